@@ -31,13 +31,12 @@ use vmon::shard::{Args, Report};
 
 #[derive(Clone, Copy, Debug, PartialEq, Eq, Hash, PartialOrd, Ord)]
 #[rustfmt::skip]
-enum R { Num, Op0, Op1, Op2, Op3, Op4, Op5, Op6, Op7, Op8, Op9, Op10, Op11, Op12, Op13, Op14, Op15, Op16, Op17 }
+enum R { Num, Op0, Op1, Op2, Op3, Op4, Op5, Op6, Op7, Op8, Op9, Op10, Op11, Op12, Op13, Op14, Op15, Op16, Op17, Op18, Op19, Op20, Op21, Op22, Op23, Op24, Op25, Op26, Op27, Op28, Op29, Op30, Op31, Op32, Op33, Op34, Op35, Op36, Op37, Op38, Op39, Op40, Op41, Op42, Op43, Op44, Op45, Op46, Op47 }
 
-const NOPS: usize = 18;
+const NOPS: usize = 48;
 #[rustfmt::skip]
-const OPS: [R; NOPS] = [R::Op0, R::Op1, R::Op2, R::Op3, R::Op4, R::Op5, R::Op6, R::Op7, R::Op8, R::Op9, R::Op10, R::Op11,
-                        R::Op12, R::Op13, R::Op14, R::Op15, R::Op16, R::Op17];
-/// Token value of an operand in a sequence (operators are their rule index 0..18).
+const OPS: [R; NOPS] = [R::Op0, R::Op1, R::Op2, R::Op3, R::Op4, R::Op5, R::Op6, R::Op7, R::Op8, R::Op9, R::Op10, R::Op11, R::Op12, R::Op13, R::Op14, R::Op15, R::Op16, R::Op17, R::Op18, R::Op19, R::Op20, R::Op21, R::Op22, R::Op23, R::Op24, R::Op25, R::Op26, R::Op27, R::Op28, R::Op29, R::Op30, R::Op31, R::Op32, R::Op33, R::Op34, R::Op35, R::Op36, R::Op37, R::Op38, R::Op39, R::Op40, R::Op41, R::Op42, R::Op43, R::Op44, R::Op45, R::Op46, R::Op47];
+/// Token value of an operand in a sequence (operators are their rule index 0..48).
 const NUM: i8 = -1;
 const MAX_TOKENS: usize = 40;
 /// Dummy input: token i is the i-th byte.
@@ -502,7 +501,7 @@ fn build_const(levels: &[Vec<(usize, Kind)>]) -> Box<dyn TreeBuilder> {
             }
         };
     }
-    dispatch!(1 2 3 4 5 6 7 8 9 10 11 12 13 14 15 16 17 18)
+    dispatch!(1 2 3 4 5 6 7 8 9 10 11 12 13 14 15 16 17 18 19 20 21 22 23 24 25 26 27 28 29 30 31 32 33 34 35 36 37 38 39 40 41 42 43 44 45 46 47 48)
 }
 
 #[allow(deprecated)]
@@ -804,12 +803,12 @@ fn check_case(rep: &mut Report, tally: &mut Tally, table: &Table, lk: &[Option<(
     let mixed = table.mixed_level();
     tally.mixed_level_cases += mixed as u64;
     // non-trivial: >= 3 operators of >= 2 different precedence levels
-    let mut levels_seen = 0u32;
+    let mut levels_seen = 0u64;
     let mut n_ops = 0;
     for t in toks {
         if *t != NUM {
             n_ops += 1;
-            levels_seen |= 1 << lk[*t as usize].unwrap().1;
+            levels_seen |= 1u64 << lk[*t as usize].unwrap().1.min(63);
         }
     }
     if n_ops >= 3 && levels_seen.count_ones() >= 2 {
@@ -994,6 +993,31 @@ fn run_exhaustive(args: &Args, rep: &mut Report, tally: &mut Tally) -> bool {
 }
 
 fn gen_table(rng: &mut Rng) -> Table {
+    if rng.chance(1, 12) {
+        // a tall table: 20..44 levels of one (sometimes two) operators, as a language with many
+        // precedence levels has; binding powers far apart and close together both occur
+        let mut rules: Vec<usize> = (0..NOPS).collect();
+        for i in (1..NOPS).rev() {
+            rules.swap(i, rng.below(i + 1));
+        }
+        let n_levels = 20 + rng.below(25);
+        let infix_only = rng.chance(1, 3);
+        let mut levels = vec![];
+        for _ in 0..n_levels {
+            let mut l = vec![];
+            let n = if rules.len() > n_levels && rng.chance(1, 8) { 2 } else { 1 };
+            for _ in 0..n {
+                let Some(r) = rules.pop() else { break };
+                let k = if infix_only { [Kind::InfixL, Kind::InfixR][rng.below(2)] } else { KINDS[rng.weighted(&[1, 1, 3, 3])] };
+                l.push((r, k));
+            }
+            if l.is_empty() {
+                break;
+            }
+            levels.push(l);
+        }
+        return Table { levels };
+    }
     let n_levels = 1 + rng.below(6);
     let mut rules: Vec<usize> = (0..NOPS).collect();
     for i in (1..NOPS).rev() {
